@@ -633,3 +633,47 @@ def inline_self_calls(repo: "Repo", cls_q: str, e: ast.AST, depth: int = 0) -> a
                     return inline_self_calls(repo, cls_q, S().visit(r), depth + 1)
             return c
     return T().visit(e)
+
+
+_STRUCTURAL_CALLS = {"dict", "zip", "list", "tuple", "enumerate", "reversed", "iter", "next", "sorted"}
+
+
+def raw_flow_from(fn: ast.AST, expr, param: str, _seen=None) -> Optional[bool]:
+    """Does `expr` carry the caller's `param` *unchanged* — reached only through structure-preserving steps (names, tuple
+    unpacking, subscripts, starring, dict/zip/list/tuple/enumerate, iteration) on every definition?
+    True  : every definition chain is structural and at least one reaches `param`  (a definite "passed through unchanged");
+    False : structural throughout but `param` is not reached;
+    None  : some step computes (conditional, boolean operator, comparison, arithmetic, other calls, a None constant …) —
+            nothing is claimed."""
+    seen = _seen if _seen is not None else set()
+    if isinstance(expr, TupleItem):
+        return raw_flow_from(fn, expr.value, param, seen)
+    if isinstance(expr, IterItem):
+        return raw_flow_from(fn, expr.iter, param, seen)
+    if isinstance(expr, (AugValue, WithItem)) or not isinstance(expr, ast.AST):
+        return None
+    if isinstance(expr, ast.Name):
+        if expr.id in seen:
+            return expr.id == param
+        seen.add(expr.id)
+        res = [raw_flow_from(fn, d, param, seen) for d in definitions(fn, expr.id, nested=True)]
+        if expr.id == param:
+            res.append(True)                                        # the caller's value is one of its definitions
+        if any(r is None for r in res):
+            return None
+        return any(res)
+    if isinstance(expr, ast.Constant):
+        return None if expr.value is None else False
+    if isinstance(expr, ast.Starred):
+        return raw_flow_from(fn, expr.value, param, seen)
+    if isinstance(expr, ast.Subscript):
+        return raw_flow_from(fn, expr.value, param, seen)          # the index selects, it does not transform
+    if isinstance(expr, (ast.Tuple, ast.List)):
+        res = [raw_flow_from(fn, e, param, seen) for e in expr.elts]
+        return None if any(r is None for r in res) else any(res)
+    if isinstance(expr, ast.Call) and (call_name(expr) or "") in _STRUCTURAL_CALLS and not expr.keywords:
+        res = [raw_flow_from(fn, a, param, set(seen)) for a in expr.args]
+        if call_name(expr) == "zip" and any(r is True for r in res):
+            return True                                             # zip pairs its arguments, it transforms none of them
+        return None if any(r is None for r in res) else any(res)
+    return None
